@@ -130,6 +130,7 @@ func c03R1R3R7(p *core.Program, r *core.Report) {
 	r.Floor("R3", 3)
 	r.Floor("R7", 3)
 	nLocal, nAdd := 0, 0
+	pairs := registerAndNameHelpers(p)
 	for _, cs := range allCalls(p) {
 		f := cs.In
 		if f.Body == nil {
@@ -137,7 +138,43 @@ func c03R1R3R7(p *core.Program, r *core.Report) {
 		}
 		info := f.Info()
 		rel := core.RelPkg(f.Pkg.PkgPath)
-		switch cs.Name {
+		if f.Root().Obj() != nil {
+			if _, inPair := pairs[f.Root().Obj()]; inPair {
+				continue // decided where the helper is called
+			}
+		}
+		// a call of a register-and-name helper: registration and lookup in one
+		if ph, isPair := pairs[core.CalleeFunc(info, cs.Call)]; isPair && len(cs.Call.Args) > max(ph.Tr, ph.T, ph.Pa) {
+			nLocal++
+			nAdd++
+			tArg, pArg := cs.Call.Args[ph.T], cs.Call.Args[ph.Pa]
+			fake := &ast.CallExpr{Fun: cs.Call.Fun, Args: []ast.Expr{tArg}}
+			r.Check(samePathAsAddType(f, fake, pArg), "R1", f, "LocalNameOf("+core.ExprStr(pArg)+") is preceded by AddType for the same path", cs.Call.Pos(),
+				"the register-and-name helper is called with a type and that type's own path", "the helper registers one package and looks up the name of another: the reference is printed with an empty or stale import name")
+			r.Check(rel == "pkg/namer", "R3", f, "AddType is called only by the naming system", cs.Call.Pos(), "call site in pkg/namer", "an import is registered outside the namer")
+			r.OK("R3", f, "registration is followed by printing the registered name", cs.Call.Pos(), "the helper returns the registered name")
+			g := graph(f)
+			own := false
+			isOwnField := func(e ast.Expr) bool { return ownPathOperand(p, f, e) }
+			isThisPath := func(e ast.Expr) bool { return samePathAsAddType(f, fake, e) }
+			facts := g.FactsAt(g.PointOf(cs.Call))
+			for _, fct := range facts {
+				if v, ok := eqFact(fct, isThisPath, isOwnField); ok && !v {
+					own = true
+				}
+			}
+			r.Check(own, "R7", f, "the file's own package is never registered", cs.Call.Pos(), "dominated by path != n.pkgPath",
+				"AddType can run for the namer's own package path: the generated file imports its own package (import cycle) and local types are qualified")
+			continue
+		}
+		name := cs.Name
+		switch trackerCall(p, info, cs.Call) {
+		case "LocalNameOf":
+			name = ifaceLocalNameOf
+		case "AddType":
+			name = ifaceAddType
+		}
+		switch name {
 		case ifaceLocalNameOf:
 			nLocal++
 			g := graph(f)
@@ -170,7 +207,7 @@ func c03R1R3R7(p *core.Program, r *core.Report) {
 			r.Check(ok, "R3", f, "registration is followed by printing the registered name", cs.Call.Pos(), "post-dominated by LocalNameOf of the same path", "a package is registered on a path that does not print its name: unused import")
 			// R7: not the own package
 			own := false
-			isOwnField := func(e ast.Expr) bool { fld := core.FieldOf(info, e); return isRole(p, fld, "namer.pkgPath") }
+			isOwnField := func(e ast.Expr) bool { return ownPathOperand(p, f, e) }
 			isThisPath := func(e ast.Expr) bool { return samePathAsAddType(f, cs.Call, e) }
 			for _, fct := range g.FactsAt(at) {
 				if v, ok := eqFact(fct, isThisPath, isOwnField); ok && !v {
@@ -525,9 +562,15 @@ func c03Tracker(p *core.Program, r *core.Report) {
 		}
 	}
 	// the unit the stores belong to: lookups and stores moved into small private helpers of the tracker are seen in place
-	sf := unit(p, stores[0].f)
+	unitOf := func(f *core.Func) *core.Func {
+		if f.Lit != nil {
+			return f // a local closure that commits a candidate: guards and stores are all inside it
+		}
+		return unit(p, f)
+	}
+	sf := unitOf(stores[0].f)
 	for _, s := range stores {
-		if unit(p, s.f) != sf {
+		if unitOf(s.f) != sf {
 			r.Bad("R4", s.f, "tracker maps are written in one function", s.as.Pos(), "the two maps are written by different functions and can get out of step")
 		}
 	}
@@ -586,7 +629,59 @@ func c03Tracker(p *core.Program, r *core.Report) {
 	}
 	r.Check(absent(np, "nameToPath", nIx.Index), "R4", sf, "a name is bound only if it is free", nameStore.Pos(), "dominated by `_, ok := nameToPath[name]` absent",
 		"the store is not guarded by the name being absent from nameToPath: two packages can get the same local name")
-	r.Check(absent(pp, "pathToName", pIx.Index), "R4", sf, "a path is bound only once", pathStore.Pos(), "dominated by `_, ok := pathToName[path]` absent",
+	// when the candidates are committed by a local closure (called once per candidate), what holds at every call of the
+	// closure holds inside it, and the function around it returns only after a call that answered true
+	var parent *core.Func
+	var closureVar *types.Var
+	var closureCalls []*ast.CallExpr
+	if sf.Lit != nil && sf.Parent != nil {
+		parent = sf.Parent
+		pinfo := parent.Info()
+		ast.Inspect(parent.Body, func(n ast.Node) bool {
+			if as, ok := n.(*ast.AssignStmt); ok && len(as.Lhs) == 1 && len(as.Rhs) == 1 && ast.Unparen(as.Rhs[0]) == ast.Expr(sf.Lit) {
+				closureVar = core.VarOf(pinfo, as.Lhs[0])
+			}
+			return true
+		})
+		if closureVar != nil {
+			for _, c := range core.Calls(parent.Body, true) {
+				if core.VarOf(pinfo, c.Fun) == closureVar {
+					closureCalls = append(closureCalls, c)
+				}
+			}
+		}
+	}
+	pathAbsent := absent(pp, "pathToName", pIx.Index)
+	if !pathAbsent && len(closureCalls) > 0 {
+		pinfo := parent.Info()
+		pg := graph(parent)
+		all := true
+		for _, c := range closureCalls {
+			found := false
+			for _, fct := range pg.FactsAt(pg.PointOf(c)) {
+				v := core.VarOf(pinfo, fct.Cond)
+				if v == nil || fct.Val {
+					continue
+				}
+				d, ok := core.SingleDef(pinfo, parent.Body, v)
+				if !ok || d.Index != 1 {
+					continue
+				}
+				ix, ok := ast.Unparen(d.Rhs).(*ast.IndexExpr)
+				if !ok {
+					continue
+				}
+				if fld := core.FieldOf(pinfo, ix.X); fld != nil && isTrackerMap(fld) == "pathToName" && core.VarOf(pinfo, ix.Index) != nil && core.VarOf(pinfo, ix.Index) == core.VarOf(info, pIx.Index) {
+					found = true
+				}
+			}
+			if !found {
+				all = false
+			}
+		}
+		pathAbsent = all
+	}
+	r.Check(pathAbsent, "R4", sf, "a path is bound only once", pathStore.Pos(), "dominated by `_, ok := pathToName[path]` absent",
 		"the store is not guarded by the path being absent from pathToName: asking twice can rebind the package to another name")
 
 	// R5 validity
@@ -645,6 +740,60 @@ func c03Tracker(p *core.Program, r *core.Report) {
 			return false
 		},
 	})
+	if len(closureCalls) > 0 {
+		// (i) the closure answers true only after both stores; (ii) the function around it leaves only on the
+		// already-bound edge or on the true edge of a call of the closure
+		okTrue := true
+		for _, rp := range g.Points(func(n ast.Node) bool { _, ok := n.(*ast.ReturnStmt); return ok }) {
+			ret := rp.Node().(*ast.ReturnStmt)
+			if len(ret.Results) != 1 {
+				okTrue = false
+				continue
+			}
+			tv := info.Types[ret.Results[0]]
+			if tv.Value == nil {
+				okTrue = false
+				continue
+			}
+			if tv.Value.String() == "true" && !(g.Dominates(pp, rp) && g.Dominates(np, rp)) {
+				okTrue = false
+			}
+		}
+		pinfo := parent.Info()
+		pg := graph(parent)
+		_, pesc := pg.Reach(pg.Entry(), true, cfgx.Query{
+			Target: func(q cfgx.Point) bool { return pg.IsExit(q) },
+			CutEdge: func(b *cfgBlock, k int) bool {
+				if len(b.Succs) != 2 || len(b.Nodes) == 0 {
+					return false
+				}
+				e, ok := b.Nodes[len(b.Nodes)-1].(ast.Expr)
+				if !ok {
+					return false
+				}
+				for _, a := range cfgx.Atoms(e, k == 0) {
+					if c, isCall := ast.Unparen(a.Cond).(*ast.CallExpr); isCall && a.Val && core.VarOf(pinfo, c.Fun) == closureVar {
+						return true
+					}
+					v := core.VarOf(pinfo, a.Cond)
+					if v == nil || !a.Val {
+						continue
+					}
+					d, ok := core.SingleDef(pinfo, parent.Body, v)
+					if !ok || d.Index != 1 {
+						continue
+					}
+					if ix, ok := ast.Unparen(d.Rhs).(*ast.IndexExpr); ok {
+						if fld := core.FieldOf(pinfo, ix.X); isRole(p, fld, "tracker.byPath") {
+							return true
+						}
+					}
+				}
+				return false
+			},
+		})
+		escapes = !okTrue || pesc
+	}
 	r.Check(!escapes, "R6", sf, "a name is always committed", sf.Node().Pos(), "every normal return passes the already-bound edge or the store",
 		"the function can return without binding a name (the candidate loop runs out when every candidate is taken or reserved): the reference is rendered as `.Name` and the import line has an empty name")
 
